@@ -70,7 +70,9 @@ TCodecStruct ==
                \/ it.pan # ""
                \/ it.enc # want
                \/ it.dn # Len(want) \/ it.size # Len(want) \/ it.esize # Len(want)
-               \/ it.dfields # it.fields})
+               \/ it.dfields # it.fields
+               \* Decode gives back v itself: same dynamic type, same value
+               \/ ("same" \in DOMAIN it /\ it.same # 1)})
 
 \* ---- C16 --------------------------------------------------------------------
 Zero == <<>>
